@@ -326,7 +326,7 @@ theorem iso_of_disjoint {a b : Region V} (ha : BMap.Sorted a) (hb : BMap.Sorted 
 /-! ### `merge_inner` refines the reference merge -/
 
 /-- the entry of a cell of the left input -/
-theorem merge_left {a b : Region V} (ha : Inv a) (hb : Inv b) (hba : Bounded a)
+theorem merge_left {a b : Region V} (ha : Inv a) (hb : Inv b) (hba : LowerBounded a)
     {c : Int × V} (hc : c ∈ a) (x : Int × V) :
     (match b.find? (sameSlot c) with
       | some d => keepNonTop c.1 (merge c.2 d.2)
@@ -352,7 +352,7 @@ theorem merge_left {a b : Region V} (ha : Inv a) (hb : Inv b) (hba : Bounded a)
           have h2 := sameSlot_iff.mp (List.find?_some (p := fun d : Int × V => sameSlot c d) hf)
           rw [huniq d' h1 h2.1.symm]
       have hiso : Iso (zipRegions a b) (c.1, some c.2, some dv) := by
-        refine iso_of_disjoint ha.sorted hb.sorted _ (hba c hc).1 ?_ ?_
+        refine iso_of_disjoint ha.sorted hb.sorted _ (hba c hc) ?_ ?_
         · rintro y (hy | hy) hlt
           · exact ha.lt_disjoint hy hc hlt
           · have := hb.lt_disjoint hy hd hlt
@@ -403,7 +403,7 @@ theorem merge_left {a b : Region V} (ha : Inv a) (hb : Inv b) (hba : Bounded a)
         simp only [rangeEnd, computeRangeEnd] at h1 h2
         omega
       · intro hno
-        refine iso_of_disjoint ha.sorted hb.sorted _ (hba c hc).1 ?_ ?_
+        refine iso_of_disjoint ha.sorted hb.sorted _ (hba c hc) ?_ ?_
         · rintro y (hy | hy) hlt
           · exact ha.lt_disjoint hy hc hlt
           · simp only [] at hlt ⊢
@@ -431,7 +431,7 @@ theorem merge_left {a b : Region V} (ha : Inv a) (hb : Inv b) (hba : Bounded a)
         rw [hiso.mp hi] at hany; cases hany
 
 /-- the entry of a cell of the right input -/
-theorem merge_right {a b : Region V} (ha : Inv a) (hb : Inv b) (hbb : Bounded b)
+theorem merge_right {a b : Region V} (ha : Inv a) (hb : Inv b) (hbb : LowerBounded b)
     {d : Int × V} (hd : d ∈ b) (x : Int × V) :
     (if a.any (sameSlot d) then none
       else if a.any (cellsOverlap d) then none
@@ -464,7 +464,7 @@ theorem merge_right {a b : Region V} (ha : Inv a) (hb : Inv b) (hbb : Bounded b)
         simp only [rangeEnd, computeRangeEnd] at h1 h2
         omega
       · intro hno
-        refine iso_of_disjoint ha.sorted hb.sorted _ (hbb d hd).1 ?_ ?_
+        refine iso_of_disjoint ha.sorted hb.sorted _ (hbb d hd) ?_ ?_
         · rintro y (hy | hy) hlt
           · simp only [] at hlt ⊢
             have hp := ha.pos hy
@@ -492,8 +492,10 @@ theorem merge_right {a b : Region V} (ha : Inv a) (hb : Inv b) (hbb : Bounded b)
       · rintro ⟨_, hi, _⟩
         rw [hiso.mp hi] at hany; cases hany
 
-/-- **`merge_inner` = reference merge** (as sets of cells) -/
-theorem mem_mergeInner {a b : Region V} (ha : Inv a) (hb : Inv b) (hba : Bounded a) (hbb : Bounded b)
+/-- **`merge_inner` = reference merge** (as sets of cells). Only `i64::MIN ≤ position` is needed of
+the operands (`LowerBounded`: the loop starts with `merged_range_end = i64::MIN`); cell ends may
+exceed `i64::MAX` (the repaired code computes them in i128). -/
+theorem mem_mergeInner_lb {a b : Region V} (ha : Inv a) (hb : Inv b) (hba : LowerBounded a) (hbb : LowerBounded b)
     {x : Int × V} : x ∈ mergeInner a b ↔ x ∈ Spec.merge a b := by
   rw [(mergeInner_spec ha.sorted hb.sorted).2 x]
   obtain ⟨_, hm⟩ := zip_spec ha.sorted hb.sorted
@@ -509,6 +511,13 @@ theorem mem_mergeInner {a b : Region V} (ha : Inv a) (hb : Inv b) (hba : Bounded
       exact ⟨_, (hm _).mpr (.inl ⟨c, hc, rfl⟩), hiso, ho, hk⟩
     · obtain ⟨hno, hiso, ho, hk⟩ := (merge_right ha hb hbb hd x).mp h
       exact ⟨_, (hm _).mpr (.inr ⟨d, hd, hno, rfl⟩), hiso, ho, hk⟩
+
+theorem lowerBounded_of_bounded {r : Region V} (h : Bounded r) : LowerBounded r := fun c hc => (h c hc).1
+
+/-- `mem_mergeInner_lb` for operands whose cells end inside i64 -/
+theorem mem_mergeInner {a b : Region V} (ha : Inv a) (hb : Inv b) (hba : Bounded a) (hbb : Bounded b)
+    {x : Int × V} : x ∈ mergeInner a b ↔ x ∈ Spec.merge a b :=
+  mem_mergeInner_lb ha hb (lowerBounded_of_bounded hba) (lowerBounded_of_bounded hbb)
 
 /-- where a cell of the reference merge comes from -/
 theorem Spec.merge_source [LawfulValueDomain V] {a b : Store V} {x : Int × V}
@@ -545,9 +554,9 @@ theorem Spec.merge_source [LawfulValueDomain V] {a b : Store V} {x : Int × V}
     · simp [hs] at h
 
 /-- **`merge_inner` preserves the invariant** -/
-theorem inv_mergeInner [LawfulValueDomain V] {a b : Region V} (ha : Inv a) (hb : Inv b)
-    (hba : Bounded a) (hbb : Bounded b) : Inv (mergeInner a b) := by
-  have hsrc : ∀ x ∈ mergeInner a b, _ := fun x hx => Spec.merge_source ((mem_mergeInner ha hb hba hbb).mp hx)
+theorem inv_mergeInner_lb [LawfulValueDomain V] {a b : Region V} (ha : Inv a) (hb : Inv b)
+    (hba : LowerBounded a) (hbb : LowerBounded b) : Inv (mergeInner a b) := by
+  have hsrc : ∀ x ∈ mergeInner a b, _ := fun x hx => Spec.merge_source ((mem_mergeInner_lb ha hb hba hbb).mp hx)
   refine inv_of_sorted (mergeInner_spec ha.sorted hb.sorted).1 ?_ ?_ (fun x hx => (hsrc x hx).1)
   · intro x hx y hy hlt
     rcases (hsrc x hx).2 with ⟨c, hc, hk, hs⟩ | ⟨d, hd, hk, hs, hno⟩ <;>
@@ -568,5 +577,9 @@ theorem inv_mergeInner [LawfulValueDomain V] {a b : Region V} (ha : Inv a) (hb :
     rcases (hsrc x hx).2 with ⟨c, hc, _, hs⟩ | ⟨d, hd, _, hs, _⟩
     · have := ha.posSizes c hc; omega
     · have := hb.posSizes d hd; omega
+
+theorem inv_mergeInner [LawfulValueDomain V] {a b : Region V} (ha : Inv a) (hb : Inv b)
+    (hba : Bounded a) (hbb : Bounded b) : Inv (mergeInner a b) :=
+  inv_mergeInner_lb ha hb (lowerBounded_of_bounded hba) (lowerBounded_of_bounded hbb)
 
 end CweModel.C05
